@@ -13,7 +13,7 @@ VERIF = os.path.dirname(HERE)
 sys.path.insert(0, HERE)
 from mutations import M  # noqa: E402
 
-WT = "/tmp/selftest_wt"
+WT = os.environ.get("SELFTEST_WT", "/tmp/selftest_wt")
 
 
 def sh(*a, **kw):
